@@ -157,6 +157,8 @@ def compare(src_sig: str, ret: str, text: str, where: str, case: Dict[str, Any],
         res['violations'].append(core.violation(sig, f'source ({src_sig}){ret} is displayed as {text!r}: differs in {diff}', case))
         return
     er = None if ret in ('', ' -> None') else norm_expr(ast.parse(ret[4:], mode='eval').body, True)
+    if er == norm_expr(ast.parse('None', mode='eval').body):
+        er = None           # "-> 'None'" is "-> None": documented as omitted
     gr = norm_expr(back.returns) if back.returns else None
     if er != gr:
         res['violations'].append(core.violation(f'{where}/returns', f'source ({src_sig}){ret} is displayed as {text!r}: return annotation shown {gr}, expected {er}', case))
@@ -246,14 +248,14 @@ def run_overloads(part: Sequence[str], allsigs: Sequence[str], base: int, res: D
         res['samples'].append({'overload_group': [f'({a}){b}' for a, b in groups[0]]})
 
 
-DEFAULTS = ['1', '-1', "'s'", 'None', 'a.b', '(1, 2)', '(1,)', '[x]', '{}', 'x or y', 'lambda x, y=1: 0', 'f(a, k=1)', 'a - (b - c)', '(0.0, 0)', '0 + 0.0',
+DEFAULTS = ['(a + b)[0]', '(a or b)[0]', '(-a)[1]', '2 ** (a + b)[1]', '(a, b)[0]', '(lambda: 0)()', '(a if b else c).d', '(yield_ := 1)', '[*a, *b]', '{**a}', 'f(*a, **k)', 'a[1:2, ::3]', '1', '-1', "'s'", 'None', 'a.b', '(1, 2)', '(1,)', '[x]', '{}', 'x or y', 'lambda x, y=1: 0', 'f(a, k=1)', 'a - (b - c)', '(0.0, 0)', '0 + 0.0',
             "b\"it's\"", '{1, 2}', '-(a + b) * c']
-ANNOTS = ['int', "'int'", "'List[int]'", "List['A']", "Literal['a']", 'Optional["B"]', 'a.B', 'Callable[[int], str]', 'int | None', '"a.B"',
+ANNOTS = ['int', 'None', "'None'", 'Optional[None]', "'int'", "'List[int]'", "List['A']", "Literal['a']", 'Optional["B"]', 'a.B', 'Callable[[int], str]', 'int | None', '"a.B"',
           'Tuple[int, ...]', "'Dict[str, \"A\"]'", 'C & "A | B"', '"A | B" & C', 'Tuple[()]', "Literal['A | B']", "typing.Literal['x', 1]", "'A' | 'B'",
           "Annotated[int, 'meta']", "'Callable[..., \"A\"]'",
           # Literal reached through any spelling: module aliases, nesting, inside a string annotation
           "t.Literal['r', 'w']", "Optional[te.Literal['r']]", "'t.Literal[\"r\", \"w\"]'", "x.y.Literal['int']", "Literal[Literal['a'], 'b']", "List[Literal['List[int]']]",
-          "Dict['K', t.Literal['K']]", "'Optional[typing_extensions.Literal[\"A\"]]'"]
+          "Dict['K', t.Literal['K']]", 'int | "str | None"', '2 * "n + 1"', '-"x + y"', '1 - "a - b"', '"a - b" - 1', 'A["B | C"] | "D"', '("a", "b")', 'x["y"].z', "'Optional[typing_extensions.Literal[\"A\"]]'"]
 
 
 def attribute(vs: List[Dict[str, Any]], dsig: Optional[str], a: str) -> None:
@@ -296,6 +298,42 @@ def run_exprs(di: int, res: Dict[str, Any]) -> None:
         res['samples'].append({'source': f'def f({rows[4][0]}){rows[4][1]}', 'displayed': text_of(format_signature(s.allobjects['m.f4']))})
 
 
+def run_depth2(pi: int, res: Dict[str, Any]) -> None:
+    """every depth-2 expression tree of the C15 form alphabet under parent form pi, as the default of a plain and of an annotated keyword-only parameter"""
+    from pydoctor.templatewriter.pages import format_signature
+    pname, par, pb = c15.FORMS[pi]
+    exprs: List[Tuple[str, str]] = []
+    for pos in range(par):
+        for cname, car, cb in c15.FORMS:
+            args = ['a'] * par
+            args[pos] = cb(*['b', 'c', 'd'][:car])
+            src = pb(*args)
+            try:
+                canon = ast.unparse(ast.parse(src, mode='eval').body)
+                ast.parse(f'def f(p={canon}, *, q=({canon})): pass')
+            except (SyntaxError, ValueError):
+                continue
+            if 'yield' in canon or 'await' in canon or ':=' in canon:
+                continue
+            exprs.append((f'{pname}.{pos}<-{cname}', canon))
+    if not exprs:
+        return
+    rows = [(f'p={e}, *, q: int = ({e})', '') for _, e in exprs]
+    src = '\n'.join(f'def f{i}({t}){ret}: pass' for i, (t, ret) in enumerate(rows)) + '\n'
+    s = pd.build_mem([pd.Mod('m', src)])
+    for i, ((origin, e), (t, ret)) in enumerate(zip(exprs, rows)):
+        fn = s.allobjects[f'm.f{i}']
+        res['evals'] += 1
+        res['nontrivial_count'] += 1
+        case = {'kind': 'expr', 'sig': t, 'ret': ret, 'default': e, 'annotation': e}
+        text = text_of(format_signature(fn))
+        before = len(res['violations'])
+        compare(t, ret, text, 'depth2', case, res)
+        dsig = default_sig(e)
+        for v in res['violations'][before:]:
+            v['sig'] += '/' + (dsig or origin.split('<-')[0])
+
+
 # ---------------------------------------------------------------- jobs
 
 def jobs(tier: str) -> Iterable[Tuple[str, Any]]:
@@ -308,6 +346,8 @@ def jobs(tier: str) -> Iterable[Tuple[str, Any]]:
         yield ('overloads', ('overloads', start, 400))
     for di in range(len(DEFAULTS)):
         yield ('exprs', ('exprs', di))
+    for pi in range(len(c15.FORMS)):
+        yield ('depth2-exprs', ('depth2', pi))
     if tier == 'thorough':
         for k in KINDS:
             for d in (0, 1):
@@ -346,6 +386,8 @@ def run_job(job: Any, tier: str) -> Dict[str, Any]:
             run_overloads(part[c0:c0 + 50], sigs, start + c0, res)
     elif job[0] == 'exprs':
         run_exprs(job[1], res)
+    elif job[0] == 'depth2':
+        run_depth2(job[1], res)
     return res
 
 
